@@ -175,10 +175,20 @@ pub fn run(ctx: &mut Ctx) -> (&'static str, String, bool) {
                 continue;
             }
             let compressed = ki % 2 == 0;
-            let o = GenOpts { text: TextMode::Mixed, max_list: Some(2), boundary: 4, hostile: false };
+            // ASCII text from the generator (encoding mixed text costs hours under Miri: linear table searches in every
+            // candidate codepage); multi-codepage bytes are written over the frame below instead - decoding them is cheap
+            let o = GenOpts { text: TextMode::Ascii, max_list: Some(2), boundary: 4, hostile: false };
             let Some((_, frame)) = c.ref_frame(&mut r, lay, &o, compressed) else { continue };
             p.distinct(&(compressed, &frame));
             check_buffer(&frame, compressed, &format!("valid-{}", lay.name), &mut p, &mut r);
+            for snippet in [&b"^J\x83\x5e^L\xe9"[..], &b"^E\xec^^^H\xa4\x5e"[..], &b"\xff\xfe^K\xb0\xa1^8"[..]] {
+                if frame.len() >= 8 + snippet.len() {
+                    let at = 4 + r.usize_below(frame.len() - 4 - snippet.len());
+                    let mut m = frame.clone();
+                    m[at..at + snippet.len()].copy_from_slice(snippet);
+                    check_buffer(&m, compressed, &format!("text-snippet-{}", lay.name), &mut p, &mut r);
+                }
+            }
             for pos in (0..frame.len()).step_by(1 + frame.len() / 10) {
                 for v in [0u8, 0x7f, 0xff] {
                     let mut m = frame.clone();
